@@ -24,8 +24,8 @@ func (r *seqReporter) ReportCounter(name string, tags map[string]string, value i
 	verifrt.LogAppend(evCounter)
 	verifrt.LogAppend(uint64(value))
 }
-func (r *seqReporter) ReportGauge(name string, tags map[string]string, value float64)       {}
-func (r *seqReporter) ReportTimer(name string, tags map[string]string, d time.Duration)     {}
+func (r *seqReporter) ReportGauge(name string, tags map[string]string, value float64)   {}
+func (r *seqReporter) ReportTimer(name string, tags map[string]string, d time.Duration) {}
 func (r *seqReporter) ReportHistogramValueSamples(name string, tags map[string]string, b Buckets, lo, hi float64, s int64) {
 }
 func (r *seqReporter) ReportHistogramDurationSamples(name string, tags map[string]string, b Buckets, lo, hi time.Duration, s int64) {
@@ -148,10 +148,10 @@ func c08Close(interval bool, ticks, closers, preempt int, withCloser bool) {
 	verifrt.Reach("c08.close.end")
 }
 
-func VerifC08NoInterval()   { c08Close(false, 0, 1, 0, true) }
-func VerifC08Interval()     { c08Close(true, 1, 1, 2, true) }
-func VerifC08NoCloser()     { c08Close(true, 1, 1, 2, false) }
-func VerifC08TwoClosers()   { c08Close(true, 1, 2, 2, true) }
-func VerifC08TwoTicks()     { c08Close(true, 2, 1, 2, true) }
-func VerifC08TwoClosers0()  { c08Close(false, 0, 2, 2, true) }
-func VerifC08Preempt3()     { c08Close(true, 1, 1, 3, true) }
+func VerifC08NoInterval()  { c08Close(false, 0, 1, 0, true) }
+func VerifC08Interval()    { c08Close(true, 1, 1, 2, true) }
+func VerifC08NoCloser()    { c08Close(true, 1, 1, 2, false) }
+func VerifC08TwoClosers()  { c08Close(true, 1, 2, 2, true) }
+func VerifC08TwoTicks()    { c08Close(true, 2, 1, 2, true) }
+func VerifC08TwoClosers0() { c08Close(false, 0, 2, 2, true) }
+func VerifC08Preempt3()    { c08Close(true, 1, 1, 3, true) }
